@@ -657,6 +657,10 @@ func c09Loop(c *Ctx) {
 				case triF:
 					if nonNil != triF && len(cancels) != 1 {
 						fail(p, sel, fmt.Sprintf("attempt #%d lost but is cancelled %d times before returning (every other started attempt must be cancelled exactly once)", i, len(cancels)))
+					} else if len(cancels) == 1 && !(len(cancels[0].Args) == 1 && cancels[0].Args[0].IsNilConst()) {
+						// the cancel result is one cell shared by every copy of the execution: a loser cancelled with a result
+						// would leave that result to be reported as the cause of a later, unrelated cancellation
+						fail(p, cancels[0], "a losing attempt must be cancelled without a result (Cancel(nil)): the cancel result is shared by all copies of the execution and would be reported as the cause of a later cancellation")
 					}
 				default:
 					fail(p, sel, fmt.Sprintf("whether attempt #%d is cancelled does not depend on the winner's index", i))
